@@ -280,6 +280,9 @@ def run_assembly(case):
     from evo.core import metrics, filters
     from evo.core.units import Unit
     (Rs, ps), (Re, pe), ts = fixture()
+    if case.get("est") == "copy":
+        # a perfect estimate: every error value is exactly zero
+        Re, pe = [R.copy() for R in Rs], [p.copy() for p in ps]
     timed = case["timed"]
     # the estimate's clock differs slightly from the reference's (as after
     # an association within t_max_diff): companion arrays follow the estimate
@@ -319,6 +322,9 @@ def run_assembly(case):
     if case["unit"] and not allowed(base_unit, case["unit"]):
         return ["incompatible unit change %s -> %s was not refused" %
                 (base_unit, case["unit"])], "assembled"
+    if "error_array" not in r.np_arrays:
+        return ["the result holds no error values (arrays: %s)" %
+                sorted(r.np_arrays)], "assembled"
     err = np.array(r.np_arrays["error_array"], dtype=float)
     unit_now = case["unit"] or base_unit
     f = factor(base_unit, unit_now)
@@ -422,7 +428,7 @@ def assembly_cases():
                                     "dunit": dunit, "delta": delta,
                                     "all_pairs": allp, "from_ref": from_ref,
                                     "timed": timed, "mode": "quat"})
-    return cases
+    return cases + [dict(c, est="copy") for c in cases]
 
 
 def shard_assembly(cases):
@@ -468,7 +474,8 @@ def run(ctx):
         "factor, refusals leave values+unit bitwise untouched, all statistics "
         "and title/label re-checked after every step; assembly: ape()/rpe() "
         "over relation x unit x delta unit x delta x all_pairs x "
-        "pairs_from_reference x timed (%d cases, fixture with a stand-still "
+        "pairs_from_reference x timed x {noisy estimate, exact copy of the "
+        "reference} (%d cases, fixture with a stand-still "
         "so the ratio relation skips a pair). non-trivial = arrays with "
         "different values / paths with a real conversion / assembled results"
         % (ctx.pick(5, 6), list(VALS), ", 3 arrays of 1e6 values"
